@@ -195,7 +195,10 @@ class B2BInst:
         if rng.random() < 0.3:
             page = (((1 << aw) - 1) >> 12) << 12       # top page of the address space
         illegal = (not self.legal_only) and rng.random() < 0.1
-        if bt == INCR:
+        if size > 7:
+            ln = rng.randint(0, self.len_max)
+            addr = rng.randrange(1 << aw)
+        elif bt == INCR:
             maxlen = min(255, 4096 // nb - 1)
             ln = rng.choice((0, 1, maxlen, rng.randint(0, maxlen), rng.randint(0, min(maxlen, 20))))
             room = 4096 - (ln + 1) * nb
